@@ -6,16 +6,25 @@
   line:    C20_line_point_count, C20_line_count, C20_line_endpoints, C20_line_major_monotone,
            C20_line_connected_inner, C20_line_partial        -- for EVERY decision stream
            C20_line_bbox_witness, C20_line_near_witness      -- the bbox / one-pixel clauses are FALSE today
+           C20_line_exact_connected, C20_line_exact_bbox_iff -- the error term in EXACT arithmetic (the double code
+                                                                agrees with it except on ties; checked op `linex`)
   circle:  C20_circle_count, C20_circle_sym                  -- any octant list (midpoint and trigonometric)
            C20_midpoint_count, C20_circle_on_curve, C20_circle_bbox, C20_circle_within_one_pixel,
            C20_circle_bound_needed_witness
-  ellipse: see the section below
+  ellipse: C20_ellipse_closed_form (t8, t9, d1, d2 in closed form = the ellipse equation at the midpoints),
+           C20_ellipse_bbox, C20_ellipse_terminates, C20_ellipse_connected, C20_ellipse_ends, C20_ellipse_closed,
+           C20_ellipse_clipped, C20_ellipse_apply_in_view, C20_ellipse_sym
+  OPEN (not proven; decided by the Spec on the real code's output only): closeness of the ellipse trajectory and of
+  the trigonometric circle to the ideal curve; bbox of the trigonometric circle; the minor-axis trajectory of the
+  line produced by the double error term (false today: witnesses).
 -/
 import GilVerif.Model.C20
 import Mathlib.Tactic.Ring
 import Mathlib.Tactic.Linarith
 
 set_option linter.unusedTactic false
+set_option linter.unnecessarySeqFocus false
+set_option linter.unusedSimpArgs false
 set_option linter.unreachableTactic false
 
 namespace GilVerif.Props.C20
@@ -68,15 +77,16 @@ theorem C20_line_count (mk : Int → Int → σ → Bool × σ) (init : σ) (s e
     · simp only [hf, decide_true, maj, if_true]; unfold iabs at *; omega
     · simp only [hf, decide_false, maj]; unfold iabs at *; simp only [Bool.false_eq_true, if_false]; omega
 
+
 private theorem emit_maj_mnr (f : Bool) (p : Pt) : emit f (maj f p) (mnr f p) = p := by cases f <;> rfl
 
 /-- number of loop iterations -/
 private def nIter (s e : Pt) : Nat := (iabs (maj (needsFlip s e) e - maj (needsFlip s e) s)).toNat
 
 private theorem lineWith_ne (mk : Int → Int → σ → Bool × σ) (init : σ) (s e : Pt) (h : s ≠ e) :
-    ∃ step : σ → Bool × σ, lineWith mk init s e =
-      lineLoop step (needsFlip s e) (majDir s e) (mnrDir s e) (nIter s e) init (maj (needsFlip s e) s) (mnr (needsFlip s e) s) ++ [e] := by
-  refine ⟨mk (iabs (mnr (needsFlip s e) e - mnr (needsFlip s e) s) + 1) (iabs (maj (needsFlip s e) e - maj (needsFlip s e) s) + 1), ?_⟩
+    lineWith mk init s e =
+      lineLoop (mk (iabs (mnr (needsFlip s e) e - mnr (needsFlip s e) s) + 1) (iabs (maj (needsFlip s e) e - maj (needsFlip s e) s) + 1))
+        (needsFlip s e) (majDir s e) (mnrDir s e) (nIter s e) init (maj (needsFlip s e) s) (mnr (needsFlip s e) s) ++ [e] := by
   unfold lineWith majDir mnrDir nIter
   simp only [h, if_false]
 
@@ -103,7 +113,7 @@ theorem C20_line_endpoints (mk : Int → Int → σ → Bool × σ) (init : σ) 
   unfold specEnds
   by_cases hse : s = e
   · subst hse; simp [lineWith]
-  · obtain ⟨step, hl⟩ := lineWith_ne mk init s e hse
+  · have hl := lineWith_ne mk init s e hse
     have hn := (nIter_facts s e).2.2 hse
     rw [hl, Bool.and_eq_true]
     constructor
@@ -118,7 +128,7 @@ theorem C20_line_major_monotone (mk : Int → Int → σ → Bool × σ) (init :
   rw [beq_iff_eq]
   by_cases hse : s = e
   · subst hse; simp [lineWith]
-  · obtain ⟨step, hl⟩ := lineWith_ne mk init s e hse
+  · have hl := lineWith_ne mk init s e hse
     have hn := (nIter_facts s e).1
     rw [hl]
     simp only [List.map_append, lineLoop_maj, List.length_append, lineLoop_length, List.length_singleton,
@@ -156,7 +166,7 @@ theorem C20_line_connected_inner (mk : Int → Int → σ → Bool × σ) (init 
   unfold specConn
   by_cases hse : s = e
   · subst hse; simp [lineWith, allPairs]
-  · obtain ⟨step, hl⟩ := lineWith_ne mk init s e hse
+  · have hl := lineWith_ne mk init s e hse
     rw [hl, List.dropLast_concat]
     have hd := dirs s e
     apply lineLoop_conn <;> unfold iabs <;> omega
@@ -189,12 +199,12 @@ theorem C20_line_partial (mk : Int → Int → σ → Bool × σ) (init : σ) (s
   unfold specLinePartial
   by_cases hse : s = e
   · subst hse; simp [lineWith]
-  · obtain ⟨step, hl⟩ := lineWith_ne mk init s e hse
+  · have hl := lineWith_ne mk init s e hse
     rw [hl, List.dropLast_concat, List.all_eq_true]
     intro pk hpk
     have hd := dirs s e
     have hn := (nIter_facts s e).1
-    have h := lineLoop_partial step (needsFlip s e) (majDir s e) (mnrDir s e) (maj (needsFlip s e) s) (mnr (needsFlip s e) s)
+    have h := lineLoop_partial _ (needsFlip s e) (majDir s e) (mnrDir s e) (maj (needsFlip s e) s) (mnr (needsFlip s e) s)
       hd.2 (nIter s e) init _ _ 0 (by simp) (by simp) pk hpk
     obtain ⟨h1, h2, h3, h4⟩ := h
     simp only [Bool.and_eq_true, decide_eq_true_eq]
@@ -222,6 +232,254 @@ theorem C20_line_near_witness :
     (27, 8) ∈ lineExact (0, 0) (31, 8) ∧
     specBBox (0, 0) (31, 8) (lineExact (0, 0) (31, 8)) = true ∧
     specNear (0, 0) (31, 8) (lineExact (0, 0) (31, 8)) = false := by decide
+
+private theorem maj_emit' (f : Bool) (x y : Int) : maj f (emit f x y) = x := by cases f <;> rfl
+private theorem mnr_emit' (f : Bool) (x y : Int) : mnr f (emit f x y) = y := by cases f <;> rfl
+
+/-- exact error term, scaled by 2W: after j iterations with c increments it equals 2jH − 2Wc and lies in [−W, W) -/
+private theorem exactLoop_inv (H W : Int) (hH : 2 ≤ H) (hW : H ≤ W) (f : Bool) (xi yi x0 y0 : Int)
+    (n : Nat) (E x y j c P Q : Int) (hP : P = j * H) (hQ : Q = W * c)
+    (hx : x = x0 + xi * j) (hy : y = y0 + yi * c) (hj : 0 ≤ j) (hE : E = 2 * P - 2 * Q) (hb : -W ≤ E ∧ E < W) :
+    ∀ p ∈ lineLoop (exactStep H W) f xi yi n E x y,
+      ∃ j' c' : Int, maj f p = x0 + xi * j' ∧ mnr f p = y0 + yi * c' ∧ j ≤ j' ∧ j' < j + n ∧
+        -W ≤ 2 * (j' * H) - 2 * (W * c') ∧ 2 * (j' * H) - 2 * (W * c') < W := by
+  induction n generalizing E x y j c P Q with
+  | zero => intro p hp; simp [lineLoop] at hp
+  | succ n ih =>
+    intro p hp
+    simp only [lineLoop, List.mem_cons] at hp
+    rcases hp with hp | hp
+    · subst hp
+      refine ⟨j, c, by rw [maj_emit', hx], by rw [mnr_emit', hy], le_refl _, by omega, ?_, ?_⟩ <;> rw [← hP, ← hQ] <;> omega
+    · have hne : ¬ (H = 1) := by omega
+      by_cases hd : E + 2 * H ≥ W
+      · have e1 : (exactStep H W E).1 = true := by simp [exactStep, hne, hd]
+        have e2 : (exactStep H W E).2 = E + 2 * H - 2 * W := by simp [exactStep, hne, hd]
+        rw [e1, e2] at hp
+        simp only [if_true] at hp
+        obtain ⟨j', c', h1, h2, h3, h4, h5⟩ := ih (E + 2 * H - 2 * W) (x + xi) (y + yi) (j + 1) (c + 1) (P + H) (Q + W)
+          (by rw [hP]; ring) (by rw [hQ]; ring) (by rw [hx]; ring) (by rw [hy]; ring) (by omega) (by omega) (by omega) p hp
+        exact ⟨j', c', h1, h2, by omega, by omega, h5⟩
+      · have e1 : (exactStep H W E).1 = false := by simp [exactStep, hne, hd]
+        have e2 : (exactStep H W E).2 = E + 2 * H := by simp [exactStep, hne, hd]
+        rw [e1, e2] at hp
+        simp only [Bool.false_eq_true, if_false] at hp
+        obtain ⟨j', c', h1, h2, h3, h4, h5⟩ := ih (E + 2 * H) (x + xi) y (j + 1) c (P + H) Q
+          (by rw [hP]; ring) hQ (by rw [hx]; ring) hy (by omega) (by omega) (by omega) p hp
+        exact ⟨j', c', h1, h2, by omega, by omega, h5⟩
+
+
+private theorem exactLoop_flat (W : Int) (f : Bool) (xi yi : Int) (n : Nat) (E x y : Int) (hE : E < W) :
+    ∀ p ∈ lineLoop (exactStep 1 W) f xi yi n E x y, mnr f p = y := by
+  induction n generalizing x with
+  | zero => intro p hp; simp [lineLoop] at hp
+  | succ n ih =>
+    intro p hp
+    have hn : ¬ (E + 0 ≥ W) := by omega
+    have e1 : (exactStep 1 W E).1 = false := by simp only [exactStep, if_true, hn, if_false]
+    have e2 : (exactStep 1 W E).2 = E := by simp only [exactStep, if_true, hn, if_false]; omega
+    simp only [lineLoop, List.mem_cons, e1, e2, Bool.false_eq_true, if_false] at hp
+    rcases hp with hp | hp
+    · subst hp; exact mnr_emit' f x y
+    · exact ih (x + xi) p hp
+
+private theorem allPairs_concat (P : Pt → Pt → Bool) (l : List Pt) (e : Pt) (hl : allPairs P l = true)
+    (hlast : ∀ z, l.getLast? = some z → P z e = true) : allPairs P (l ++ [e]) = true := by
+  induction l with
+  | nil => rfl
+  | cons a t ih =>
+    cases t with
+    | nil => simp only [List.cons_append, List.nil_append, allPairs, Bool.and_true]; exact hlast a rfl
+    | cons b t' =>
+      simp only [List.cons_append, allPairs, Bool.and_eq_true] at hl ⊢
+      refine ⟨hl.1, ih hl.2 ?_⟩
+      intro z hz; apply hlast; simpa using hz
+
+
+/-- In exact arithmetic the last step (onto the end point) is 8-connected too: the whole line is 8-connected.
+    (For the double error term of the real code this step is decided by the Spec on the real output.) -/
+theorem C20_line_exact_connected (s e : Pt) : specConn (lineExact s e) = true := by
+  unfold specConn lineExact
+  by_cases hse : s = e
+  · subst hse; simp [lineWith, allPairs]
+  · rw [lineWith_ne exactStep (0 : Int) s e hse]
+    have hd := dirs s e
+    obtain ⟨hn1, hn2, hn3⟩ := nIter_facts s e
+    have hn3 := hn3 hse
+    apply allPairs_concat
+    · apply lineLoop_conn <;> unfold iabs <;> omega
+    · intro z hz
+      have hzmem := List.mem_of_getLast? hz
+      have hm := lineLoop_maj (exactStep (iabs (mnr (needsFlip s e) e - mnr (needsFlip s e) s) + 1) (iabs (maj (needsFlip s e) e - maj (needsFlip s e) s) + 1))
+        (needsFlip s e) (majDir s e) (mnrDir s e) (nIter s e) 0 (maj (needsFlip s e) s) (mnr (needsFlip s e) s)
+      have hzm : maj (needsFlip s e) z = maj (needsFlip s e) s + (((nIter s e - 1 : Nat) : Int)) * majDir s e := by
+        have h2 := congrArg List.getLast? hm
+        rw [List.getLast?_map, hz, List.getLast?_map, List.getLast?_range] at h2
+        have : ¬ (nIter s e = 0) := by omega
+        simp only [this, if_false, Option.map_some, Option.some.injEq] at h2
+        exact h2
+      by_cases hH : iabs (mnr (needsFlip s e) e - mnr (needsFlip s e) s) = 0
+      · -- horizontal in the major frame: the minor coordinate never moves
+        rw [hH] at hzmem
+        have hflat := exactLoop_flat _ (needsFlip s e) (majDir s e) (mnrDir s e) (nIter s e) 0 _ (mnr (needsFlip s e) s)
+          (by unfold iabs at *; omega) z hzmem
+        have he1 : maj (needsFlip s e) e = maj (needsFlip s e) s + (nIter s e : Int) * majDir s e := by
+          rw [hn1]; unfold majDir iabs; split <;> omega
+        have he2 : mnr (needsFlip s e) e = mnr (needsFlip s e) s := by unfold iabs at hH; omega
+        have hcast : (((nIter s e - 1 : Nat)) : Int) = (nIter s e : Int) - 1 := by omega
+        rw [hcast] at hzm
+        unfold conn8 iabs
+        rcases hd.1 with h1 | h1 <;> rw [h1] at hzm he1 <;>
+          (cases hf : needsFlip s e <;> simp only [hf, maj, mnr, Bool.false_eq_true, if_false, if_true] at hzm he1 he2 hflat <;>
+            simp only [Bool.and_eq_true, decide_eq_true_eq] <;> omega)
+      · obtain ⟨j', c', h1, h2, h3, h4, h5, h6⟩ := exactLoop_inv (iabs (mnr (needsFlip s e) e - mnr (needsFlip s e) s) + 1)
+          (iabs (maj (needsFlip s e) e - maj (needsFlip s e) s) + 1) (by unfold iabs at *; omega) (by omega)
+          (needsFlip s e) (majDir s e) (mnrDir s e) (maj (needsFlip s e) s) (mnr (needsFlip s e) s) (nIter s e) 0 _ _ 0 0 0 0
+          (by ring) (by ring) (by ring) (by ring) (le_refl _) (by ring) (by unfold iabs; omega) z hzmem
+        have hcast : (((nIter s e - 1 : Nat)) : Int) = (nIter s e : Int) - 1 := by omega
+        rw [hcast] at hzm
+        -- j' is the last index
+        have hj : j' = (nIter s e : Int) - 1 := by
+          rcases hd.1 with hx | hx <;> rw [hx] at hzm h1 <;> omega
+        subst hj
+        have he1 : maj (needsFlip s e) e = maj (needsFlip s e) s + (nIter s e : Int) * majDir s e := by
+          rw [hn1]; unfold majDir iabs; split <;> omega
+        have he2 : mnr (needsFlip s e) e = mnr (needsFlip s e) s + mnrDir s e * iabs (mnr (needsFlip s e) e - mnr (needsFlip s e) s) := by
+          unfold mnrDir iabs; split <;> omega
+        have hH0 : 0 ≤ iabs (mnr (needsFlip s e) e - mnr (needsFlip s e) s) := by unfold iabs; omega
+        rw [← hn1] at h5 h6
+        generalize iabs (mnr (needsFlip s e) e - mnr (needsFlip s e) s) = HH at *
+        generalize (nIter s e : Int) = NN at *
+        -- c' ∈ {HH-1, HH, HH+1}  (H = HH+1, W = NN+1, j = NN-1)
+        have hc1 : c' ≤ HH + 1 := by
+          by_contra hcon
+          have : (NN + 1) * (HH + 2) ≤ (NN + 1) * c' := mul_le_mul_of_nonneg_left (by omega) (by omega)
+          nlinarith
+        have hc0 : HH - 1 ≤ c' := by
+          by_contra hcon
+          have : (NN + 1) * c' ≤ (NN + 1) * (HH - 2) := mul_le_mul_of_nonneg_left (by omega) (by omega)
+          nlinarith
+        unfold conn8 iabs
+        rcases hd.1 with hx | hx <;> rcases hd.2 with hy | hy <;> rw [hx] at hzm he1 <;> rw [hy] at h2 he2 <;>
+          (cases hf : needsFlip s e <;> simp only [hf, maj, mnr, Bool.false_eq_true, if_false, if_true] at hzm he1 he2 h2 <;>
+            simp only [Bool.and_eq_true, decide_eq_true_eq] <;> omega)
+
+private theorem lineLoop_maj_mem {σ : Type} (step : σ → Bool × σ) (f : Bool) (xi yi x0 : Int) (n : Nat) (st : σ) (x y j : Int)
+    (hx : x = x0 + xi * j) :
+    ∀ p ∈ lineLoop step f xi yi n st x y, ∃ j' : Int, maj f p = x0 + xi * j' ∧ j ≤ j' ∧ j' < j + n := by
+  induction n generalizing st x y j with
+  | zero => intro p hp; simp [lineLoop] at hp
+  | succ n ih =>
+    intro p hp
+    simp only [lineLoop, List.mem_cons] at hp
+    rcases hp with hp | hp
+    · subst hp; exact ⟨j, by rw [maj_emit', hx], le_refl _, by omega⟩
+    · obtain ⟨j', h1, h2, h3⟩ := ih _ (x + xi) _ (j + 1) (by rw [hx]; ring) p hp
+      exact ⟨j', h1, by omega, by omega⟩
+
+/-- Exact characterisation of the bounding-box defect (exact arithmetic): the line stays inside the end
+    points' bounding box if and only if the minor extent is 0 or |Δmajor|+1 < 4·(|Δminor|+1).
+    (The double code agrees with exact arithmetic except on ties; the correspondence run counts 3136 of the
+    14641 vectors of [-60,60]² leaving the box on the real code.) -/
+theorem C20_line_exact_bbox_iff (s e : Pt) :
+    specBBox s e (lineExact s e) = true ↔
+      (iabs (mnr (needsFlip s e) e - mnr (needsFlip s e) s) = 0 ∨
+       iabs (maj (needsFlip s e) e - maj (needsFlip s e) s) + 1 < 4 * (iabs (mnr (needsFlip s e) e - mnr (needsFlip s e) s) + 1)) := by
+  unfold specBBox lineExact
+  by_cases hse : s = e
+  · subst hse; simp [lineWith, inBox, bboxLo, bboxHi, iabs]
+  · rw [lineWith_ne exactStep (0 : Int) s e hse]
+    have hd := dirs s e
+    obtain ⟨hn1, hn2, hn3⟩ := nIter_facts s e
+    have hn3 := hn3 hse
+    have he1 : maj (needsFlip s e) e = maj (needsFlip s e) s + (nIter s e : Int) * majDir s e := by
+      rw [hn1]; unfold majDir iabs; split <;> omega
+    have he2 : mnr (needsFlip s e) e = mnr (needsFlip s e) s + mnrDir s e * iabs (mnr (needsFlip s e) e - mnr (needsFlip s e) s) := by
+      unfold mnrDir iabs; split <;> omega
+    have hH0 : 0 ≤ iabs (mnr (needsFlip s e) e - mnr (needsFlip s e) s) := by unfold iabs; omega
+    -- membership in the box in terms of major / minor offsets
+    have hbox : ∀ (p : Pt) (j c : Int), maj (needsFlip s e) p = maj (needsFlip s e) s + majDir s e * j →
+        mnr (needsFlip s e) p = mnr (needsFlip s e) s + mnrDir s e * c → 0 ≤ j → j ≤ (nIter s e : Int) →
+        (inBox (bboxLo s e) (bboxHi s e) p = true ↔ 0 ≤ c ∧ c ≤ iabs (mnr (needsFlip s e) e - mnr (needsFlip s e) s)) := by
+      intro p j c hp1 hp2 hj0 hj1
+      unfold inBox bboxLo bboxHi
+      unfold iabs at he2 ⊢
+      simp only [Bool.and_eq_true, decide_eq_true_eq]
+      rcases hd.1 with hx | hx <;> rcases hd.2 with hy | hy <;> rw [hx] at hp1 he1 <;> rw [hy] at hp2 he2 <;>
+        (cases hf : needsFlip s e <;> simp only [hf, maj, mnr, Bool.false_eq_true, if_false, if_true] at hp1 hp2 he1 he2 ⊢ <;> omega)
+    rw [List.all_eq_true]
+    by_cases hH : iabs (mnr (needsFlip s e) e - mnr (needsFlip s e) s) = 0
+    · simp only [hH, true_or, iff_true]
+      intro p hp
+      simp only [List.mem_append, List.mem_singleton] at hp
+      rcases hp with hp | hp
+      · have hflat := exactLoop_flat _ (needsFlip s e) (majDir s e) (mnrDir s e) (nIter s e) 0 _ (mnr (needsFlip s e) s)
+          (by unfold iabs at *; omega) p hp
+        obtain ⟨k, h1, h2, h3⟩ := lineLoop_maj_mem _ (needsFlip s e) (majDir s e) (mnrDir s e) (maj (needsFlip s e) s) (nIter s e) (0 : Int)
+          (maj (needsFlip s e) s) (mnr (needsFlip s e) s) 0 (by ring) p hp
+        rw [hbox p k 0 h1 (by rw [hflat]; ring) (by omega) (by omega), hH]; omega
+      · rw [hp, hbox e (nIter s e) (iabs (mnr (needsFlip s e) e - mnr (needsFlip s e) s)) (by rw [he1]; ring) he2 (by omega) (le_refl _)]
+        omega
+    · simp only [hH, false_or]
+      have hinv := exactLoop_inv (iabs (mnr (needsFlip s e) e - mnr (needsFlip s e) s) + 1)
+          (iabs (maj (needsFlip s e) e - maj (needsFlip s e) s) + 1) (by unfold iabs at *; omega) (by omega)
+          (needsFlip s e) (majDir s e) (mnrDir s e) (maj (needsFlip s e) s) (mnr (needsFlip s e) s) (nIter s e) 0 _ _ 0 0 0 0
+          (by ring) (by ring) (by ring) (by ring) (le_refl _) (by ring) (by unfold iabs; omega)
+      constructor
+      · -- a box-respecting run forces W < 4H: look at the last loop point
+        intro hall
+        by_contra hcon
+        obtain ⟨m, hm⟩ : ∃ m, nIter s e = m + 1 := ⟨nIter s e - 1, by omega⟩
+        have hne : lineLoop (exactStep (iabs (mnr (needsFlip s e) e - mnr (needsFlip s e) s) + 1) (iabs (maj (needsFlip s e) e - maj (needsFlip s e) s) + 1))
+            (needsFlip s e) (majDir s e) (mnrDir s e) (nIter s e) 0 (maj (needsFlip s e) s) (mnr (needsFlip s e) s) ≠ [] := by
+          rw [hm]; simp [lineLoop]
+        obtain ⟨z, hz⟩ : ∃ z, (lineLoop (exactStep (iabs (mnr (needsFlip s e) e - mnr (needsFlip s e) s) + 1) (iabs (maj (needsFlip s e) e - maj (needsFlip s e) s) + 1))
+            (needsFlip s e) (majDir s e) (mnrDir s e) (nIter s e) 0 (maj (needsFlip s e) s) (mnr (needsFlip s e) s)).getLast? = some z :=
+          ⟨_, List.getLast?_eq_some_getLast hne⟩
+        have hzmem := List.mem_of_getLast? hz
+        have hmj := lineLoop_maj (exactStep (iabs (mnr (needsFlip s e) e - mnr (needsFlip s e) s) + 1) (iabs (maj (needsFlip s e) e - maj (needsFlip s e) s) + 1))
+          (needsFlip s e) (majDir s e) (mnrDir s e) (nIter s e) 0 (maj (needsFlip s e) s) (mnr (needsFlip s e) s)
+        have hzm : maj (needsFlip s e) z = maj (needsFlip s e) s + (((nIter s e - 1 : Nat)) : Int) * majDir s e := by
+          have h2 := congrArg List.getLast? hmj
+          rw [List.getLast?_map, hz, List.getLast?_map, List.getLast?_range] at h2
+          have : ¬ (nIter s e = 0) := by omega
+          simp only [this, if_false, Option.map_some, Option.some.injEq] at h2
+          exact h2
+        obtain ⟨j', c', h1, h2, h3, h4, h5, h6⟩ := hinv z hzmem
+        have hcast : (((nIter s e - 1 : Nat)) : Int) = (nIter s e : Int) - 1 := by omega
+        rw [hcast] at hzm
+        have hj : j' = (nIter s e : Int) - 1 := by
+          rcases hd.1 with hx | hx <;> rw [hx] at hzm h1 <;> omega
+        subst hj
+        have hzbox := hall z (by simp [hzmem])
+        rw [hbox z _ c' h1 h2 (by omega) (by omega)] at hzbox
+        rw [← hn1] at h5 h6 hcon
+        generalize iabs (mnr (needsFlip s e) e - mnr (needsFlip s e) s) = HH at *
+        generalize (nIter s e : Int) = NN at *
+        have : (NN + 1) * c' ≤ (NN + 1) * HH := mul_le_mul_of_nonneg_left hzbox.2 (by omega)
+        nlinarith
+      · intro hW p hp
+        simp only [List.mem_append, List.mem_singleton] at hp
+        rcases hp with hp | hp
+        · obtain ⟨j', c', h1, h2, h3, h4, h5, h6⟩ := hinv p hp
+          rw [hbox p j' c' h1 h2 h3 (by omega)]
+          rw [← hn1] at h5 h6 hW
+          generalize iabs (mnr (needsFlip s e) e - mnr (needsFlip s e) s) = HH at *
+          generalize (nIter s e : Int) = NN at *
+          have hjH : 0 ≤ j' * (HH + 1) := mul_nonneg h3 (by omega)
+          have hjH2 : j' * (HH + 1) ≤ (NN - 1) * (HH + 1) := mul_le_mul_of_nonneg_right (by omega) (by omega)
+          constructor
+          · by_contra hcon
+            have : (NN + 1) * c' ≤ (NN + 1) * (-1) := mul_le_mul_of_nonneg_left (by omega) (by omega)
+            nlinarith
+          · by_contra hcon
+            have : (NN + 1) * (HH + 1) ≤ (NN + 1) * c' := mul_le_mul_of_nonneg_left (by omega) (by omega)
+            nlinarith
+        · rw [hp, hbox e (nIter s e) (iabs (mnr (needsFlip s e) e - mnr (needsFlip s e) s)) (by rw [he1]; ring) he2 (by omega) (le_refl _)]
+          omega
+
+example : iabs (maj (needsFlip (0, 0) (7, 1)) (7, 1) - maj (needsFlip (0, 0) (7, 1)) (0, 0)) + 1
+    = 4 * (iabs (mnr (needsFlip (0, 0) (7, 1)) (7, 1) - mnr (needsFlip (0, 0) (7, 1)) (0, 0)) + 1) := by decide
 
 
 /-! ## circles -/
@@ -275,11 +533,6 @@ private theorem mid_body_eq (x y r2 : Int) :
     mid_body x y r2 = if x * x + y * y - y - r2 > 0 then y - 1 else y := by
   unfold mid_body
   by_cases h : x * x + y * y - y - r2 > 0 <;> (try simp only [h, if_true, if_false]) <;> (try (first | rfl | omega))
-
-/-- the midpoint invariant: y is the best integer ordinate for abscissa x -/
-def OnCurve (r : Int) (p : Pt) : Prop :=
-  0 ≤ p.1 ∧ 0 ≤ p.2 ∧ p.2 ≤ r ∧ p.1 ≤ r ∧
-  p.1 * p.1 + p.2 * p.2 - p.2 - r * r ≤ 0 ∧ 0 ≤ p.1 * p.1 + p.2 * p.2 + p.2 - r * r
 
 private theorem midLoop_inv (r : Int) (hr : 0 ≤ r) (k : Nat) (x y : Int)
     (hx : 1 ≤ x) (hy0 : 0 ≤ y) (hyr : y ≤ r)
@@ -393,6 +646,391 @@ theorem C20_circle_within_one_pixel (c : Pt) (r : Int) (hr : 0 ≤ r) (n : Nat)
 
 /-- the hypothesis on n is needed: one iteration too many leaves the circle (r = 1, n = 3 emits (2,0) mirrored) -/
 theorem C20_circle_bound_needed_witness : specCircleBBox (0, 0) 1 (midCircleWith (0, 0) 1 3) = false := by decide
+
+
+/-! ## midpoint_ellipse_rasterizer -/
+
+/-- close a polynomial identity (possibly after beta/eta/projection reduction) -/
+local macro "ringc" : tactic => `(tactic| first | rfl | ring1 | (simp only; ring1))
+
+/-- what the generated body of `while (d2 < 0)` computes -/
+private theorem step1_eq (c : EC) (s : ES) : step1 c s =
+    if s.d1 < 0 then ⟨s.x, s.y + 1, s.t8, s.t9 + c.t3, s.d1 + (s.t9 + c.t3 + c.t2), s.d2 + (s.t9 + c.t3)⟩
+    else ⟨s.x - 1, s.y + 1, s.t8 - c.t6, s.t9 + c.t3, s.d1 + (s.t9 + c.t3 + c.t2 - (s.t8 - c.t6)),
+          s.d2 + (c.t5 + (s.t9 + c.t3) - (s.t8 - c.t6))⟩ := by
+  unfold step1 ell_body1 ES.ofTuple
+  by_cases h : s.d1 < 0 <;> simp only [h, if_true, if_false, ES.mk.injEq] <;> (try (and_intros <;> (first | trivial | omega)))
+
+/-- what the generated body of `while (x >= 0)` computes -/
+private theorem step2_eq (c : EC) (s : ES) : step2 c s =
+    if s.d2 < 0 then ⟨s.x - 1, s.y + 1, s.t8 - c.t6, s.t9 + c.t3, s.d1, s.d2 + (c.t5 + (s.t9 + c.t3) - (s.t8 - c.t6))⟩
+    else ⟨s.x - 1, s.y, s.t8 - c.t6, s.t9, s.d1, s.d2 + (c.t5 - (s.t8 - c.t6))⟩ := by
+  unfold step2 ell_body2 ES.ofTuple
+  by_cases h : s.d2 < 0 <;> simp only [h, if_true, if_false, ES.mk.injEq] <;> (try (and_intros <;> (first | trivial | omega)))
+
+
+private theorem consts_eq (a b : Int) (ha0 : 0 ≤ a) (hb0 : 0 ≤ b) (haw : a * a < 4294967296) (hbw : b * b < 4294967296) :
+    ellConsts a b = ⟨2 * (a * a), 4 * (a * a), 2 * (b * b), 4 * (b * b)⟩ ∧
+    ellInit a b = ⟨a, 0, 4 * (b * b) * a, 0, 2 * (a * a) - 2 * (b * b) * a + Int.tdiv (b * b) 2,
+                   Int.tdiv (a * a) 2 - 4 * (b * b) * a + 2 * (b * b)⟩ := by
+  have e1 : ell_t1 a = a * a := by unfold ell_t1; exact Int.emod_eq_of_lt (mul_nonneg ha0 ha0) haw
+  have e4 : ell_t4 b = b * b := by unfold ell_t4; exact Int.emod_eq_of_lt (mul_nonneg hb0 hb0) hbw
+  constructor
+  · unfold ellConsts; rw [e1, e4]; dsimp only; congr 1 <;> ringc
+  · unfold ellInit ell_t7 ell_d1 ell_d2; rw [e1, e4]; dsimp only; congr 1 <;> ringc
+
+/-- the closed forms hold initially and are preserved by both loop bodies
+    (semi-axes below 2^16 so that the unsigned products a·a, b·b do not wrap) -/
+theorem C20_ellipse_closed_form (a b : Int) (ha0 : 0 ≤ a) (hb0 : 0 ≤ b) (haw : a * a < 4294967296) (hbw : b * b < 4294967296) :
+    EllInv a b (ellInit a b) ∧
+    (∀ s, EllInv a b s → EllInv a b (step1 (ellConsts a b) s)) ∧
+    (∀ s, EllInv2 a b s → EllInv2 a b (step2 (ellConsts a b) s)) := by
+  obtain ⟨hc, hi⟩ := consts_eq a b ha0 hb0 haw hbw
+  refine ⟨?_, ?_, ?_⟩
+  · rw [hi]; unfold EllInv EllInv2; refine ⟨⟨?_, ?_, ?_⟩, ?_⟩ <;> ringc
+  · intro s ⟨⟨h9, h8, h2⟩, h1⟩
+    rw [step1_eq, hc]
+    by_cases h : s.d1 < 0 <;> simp only [h, if_true, if_false] <;> unfold EllInv EllInv2 <;>
+      (refine ⟨⟨?_, ?_, ?_⟩, ?_⟩ <;> (first | assumption | (simp only [h9, h8, h2, h1]; ring1)))
+  · intro s ⟨h9, h8, h2⟩
+    rw [step2_eq, hc]
+    by_cases h : s.d2 < 0 <;> simp only [h, if_true, if_false] <;> unfold EllInv2 <;>
+      (refine ⟨?_, ?_, ?_⟩ <;> (first | assumption | (simp only [h9, h8, h2]; ring1)))
+
+example : (3 : Int) * 3 < 4294967296 := by decide
+
+
+example : Axes 30 20 := ⟨by decide, by decide, by decide, by decide⟩
+
+private theorem tdiv2 (n : Int) (h : 0 ≤ n) : 0 ≤ Int.tdiv n 2 ∧ 2 * Int.tdiv n 2 ≤ n := by
+  rw [Int.tdiv_eq_ediv_of_nonneg h]; omega
+
+/-- state invariant at the head of `while (d2 < 0)` -/
+private def L1 (a b : Int) (s : ES) : Prop :=
+  EllInv a b s ∧ 0 ≤ s.y ∧ s.y ≤ b ∧ 0 ≤ s.x ∧ s.x ≤ a ∧ (s.d2 < 0 → 1 ≤ s.x)
+
+/-- d2 < 0 means the point (x−1, y+½) is inside the ellipse: then y < b -/
+private theorem d2_neg_y_lt (a b : Int) (hx : Axes a b) (s : ES) (hi : EllInv2 a b s) (hy : 0 ≤ s.y) (hd : s.d2 < 0) :
+    s.y < b := by
+  obtain ⟨_, _, h2⟩ := hi
+  have hA := tdiv2 (a * a) (mul_nonneg (by linarith [hx.ha]) (by linarith [hx.ha]))
+  have ha2 : 1 ≤ a * a := by nlinarith [hx.ha]
+  have hsq : 0 ≤ (b * b) * ((s.x - 1) * (s.x - 1)) := mul_nonneg (mul_self_nonneg b) (mul_self_nonneg _)
+  by_contra hc
+  have hyb : b ≤ s.y := by omega
+  have h3 : b * b ≤ s.y * s.y := by nlinarith [hx.hb]
+  have h4 : (a * a) * (b * b) ≤ (a * a) * (s.y * s.y) := mul_le_mul_of_nonneg_left h3 (by linarith)
+  have h5 : 0 ≤ (a * a) * s.y := mul_nonneg (by linarith) hy
+  rw [h2] at hd
+  linarith [hA.1]
+
+private theorem L1_init (a b : Int) (hx : Axes a b) : L1 a b (ellInit a b) := by
+  have hcf := (C20_ellipse_closed_form a b (by linarith [hx.ha]) (by linarith [hx.hb]) hx.haw hx.hbw).1
+  obtain ⟨_, hi⟩ := consts_eq a b (by linarith [hx.ha]) (by linarith [hx.hb]) hx.haw hx.hbw
+  refine ⟨hcf, ?_, ?_, ?_, ?_, ?_⟩ <;> rw [hi] <;> simp only <;> (try intro _) <;> linarith [hx.ha, hx.hb]
+
+private theorem L1_step (a b : Int) (hx : Axes a b) (s : ES) (h : L1 a b s) (hd : s.d2 < 0) :
+    L1 a b (step1 (ellConsts a b) s) ∧ 1 ≤ s.x ∧ s.y < b := by
+  obtain ⟨hi, hy0, hyb, hx0, hxa, hx1⟩ := h
+  have hylt := d2_neg_y_lt a b hx s hi.1 hy0 hd
+  have hxpos := hx1 hd
+  have hcf := (C20_ellipse_closed_form a b (by linarith [hx.ha]) (by linarith [hx.hb]) hx.haw hx.hbw).2.1 s hi
+  obtain ⟨hc, _⟩ := consts_eq a b (by linarith [hx.ha]) (by linarith [hx.hb]) hx.haw hx.hbw
+  refine ⟨⟨hcf, ?_⟩, hxpos, hylt⟩
+  have hi' := hcf
+  rw [step1_eq, hc] at hi' ⊢
+  by_cases hd1 : s.d1 < 0
+  · simp only [hd1, if_true] at hi' ⊢
+    exact ⟨by omega, by omega, hx0, hxa, fun _ => hxpos⟩
+  · simp only [hd1, if_false] at hi' ⊢
+    refine ⟨by omega, by omega, by omega, by omega, ?_⟩
+    intro hneg
+    -- if x was 1 the new d2 exceeds the old d1 ≥ 0
+    by_contra hc1
+    have hx1' : s.x = 1 := by omega
+    obtain ⟨⟨_, _, h2'⟩, _⟩ := hi'
+    obtain ⟨_, h1⟩ := hi
+    simp only at h2'
+    have hA := tdiv2 (a * a) (mul_nonneg (by linarith [hx.ha]) (by linarith [hx.ha]))
+    have hB := tdiv2 (b * b) (mul_nonneg (by linarith [hx.hb]) (by linarith [hx.hb]))
+    have hb2 : 1 ≤ b * b := by nlinarith [hx.hb]
+    have h5 : 0 ≤ (a * a) * (s.y + 1) := mul_nonneg (mul_self_nonneg a) (by omega)
+    rw [hx1'] at h1 h2'
+    rw [h2'] at hneg
+    have hd1' : 0 ≤ s.d1 := by omega
+    rw [h1] at hd1'
+    nlinarith [hA.1, hB.2]
+
+
+private theorem loop1_all (a b : Int) (hx : Axes a b) (f : Nat) (s : ES) (h : L1 a b s) :
+    (∀ p ∈ (ellLoop1 (ellConsts a b) f s).1, 1 ≤ p.1 ∧ p.1 ≤ a ∧ 0 ≤ p.2 ∧ p.2 < b) ∧
+    L1 a b (ellLoop1 (ellConsts a b) f s).2 ∧
+    (b - s.y < (f : Int) → 0 ≤ (ellLoop1 (ellConsts a b) f s).2.d2) := by
+  induction f generalizing s with
+  | zero =>
+    refine ⟨by intro p hp; simp [ellLoop1] at hp, h, ?_⟩
+    intro hlt
+    simp only [ellLoop1]
+    by_contra hc
+    have := d2_neg_y_lt a b hx s h.1.1 h.2.1 (by omega)
+    omega
+  | succ f ih =>
+    by_cases hd : s.d2 < 0
+    · obtain ⟨hs, hx1, hyb⟩ := L1_step a b hx s h hd
+      obtain ⟨i1, i2, i3⟩ := ih (step1 (ellConsts a b) s) hs
+      have hy' : (step1 (ellConsts a b) s).y = s.y + 1 := by rw [step1_eq]; split <;> rfl
+      simp only [ellLoop1, hd, if_true]
+      refine ⟨?_, i2, ?_⟩
+      · intro p hp
+        simp only [List.mem_cons] at hp
+        rcases hp with hp | hp
+        · subst hp; exact ⟨hx1, h.2.2.2.2.1, h.2.1, hyb⟩
+        · exact i1 p hp
+      · intro hlt; apply i3; rw [hy']; omega
+    · simp only [ellLoop1, hd, if_false]
+      exact ⟨by intro p hp; simp at hp, h, fun _ => by omega⟩
+
+/-- state invariant at the head of `while (x >= 0)` -/
+private def L2 (a b : Int) (s : ES) : Prop := EllInv2 a b s ∧ 0 ≤ s.y ∧ s.y ≤ b ∧ s.x ≤ a
+
+private theorem loop2_all (a b : Int) (hx : Axes a b) (f : Nat) (s : ES) (h : L2 a b s) :
+    (∀ p ∈ (ellLoop2 (ellConsts a b) f s).1, 0 ≤ p.1 ∧ p.1 ≤ a ∧ 0 ≤ p.2 ∧ p.2 ≤ b) ∧
+    (s.x + 1 ≤ (f : Int) → (ellLoop2 (ellConsts a b) f s).2.x < 0) := by
+  induction f generalizing s with
+  | zero => exact ⟨by intro p hp; simp [ellLoop2] at hp, by intro hlt; simp only [ellLoop2]; omega⟩
+  | succ f ih =>
+    by_cases hd : s.x ≥ 0
+    · obtain ⟨hi, hy0, hyb, hxa⟩ := h
+      have hcf := (C20_ellipse_closed_form a b (by linarith [hx.ha]) (by linarith [hx.hb]) hx.haw hx.hbw).2.2 s hi
+      have hs : L2 a b (step2 (ellConsts a b) s) ∧ (step2 (ellConsts a b) s).x = s.x - 1 := by
+        refine ⟨⟨hcf, ?_⟩, ?_⟩
+        · rw [step2_eq]
+          by_cases hd2 : s.d2 < 0
+          · have := d2_neg_y_lt a b hx s hi hy0 hd2
+            simp only [hd2, if_true]; omega
+          · simp only [hd2, if_false]; omega
+        · rw [step2_eq]; split <;> rfl
+      obtain ⟨i1, i3⟩ := ih (step2 (ellConsts a b) s) hs.1
+      simp only [ellLoop2, hd, if_true]
+      refine ⟨?_, ?_⟩
+      · intro p hp
+        simp only [List.mem_cons] at hp
+        rcases hp with hp | hp
+        · subst hp; exact ⟨hd, hxa, hy0, hyb⟩
+        · exact i1 p hp
+      · intro hlt; apply i3; rw [hs.2]; omega
+    · simp only [ellLoop2, hd, if_false]
+      exact ⟨by intro p hp; simp at hp, fun _ => by omega⟩
+
+/-- obtain_trajectory stays in the first-quadrant bounding box 0 ≤ x ≤ a, 0 ≤ y ≤ b (whatever the fuel) -/
+theorem C20_ellipse_bbox (a b : Int) (hx : Axes a b) (f1 f2 : Nat) :
+    specEllBBox a b (ellTrajectoryFuel a b f1 f2).1 = true := by
+  unfold specEllBBox ellTrajectoryFuel
+  rw [List.all_eq_true]
+  intro p hp
+  simp only [List.mem_append] at hp
+  obtain ⟨i1, i2, _⟩ := loop1_all a b hx f1 (ellInit a b) (L1_init a b hx)
+  have hl2 : L2 a b (ellLoop1 (ellConsts a b) f1 (ellInit a b)).2 := ⟨i2.1.1, i2.2.1, i2.2.2.1, i2.2.2.2.2.1⟩
+  simp only [inBox, Bool.and_eq_true, decide_eq_true_eq]
+  rcases hp with hp | hp
+  · have := i1 p hp; omega
+  · have := (loop2_all a b hx f2 _ hl2).1 p hp; omega
+
+/-- both loops of obtain_trajectory terminate: b+1 resp. a+2 iterations always suffice
+    (the model's fuel is never exhausted, so `ellTrajectory` is the whole trajectory) -/
+theorem C20_ellipse_terminates (a b : Int) (hx : Axes a b) : (ellTrajectory a b).2 = false := by
+  unfold ellTrajectory ellTrajectoryFuel
+  obtain ⟨_, i2, i3⟩ := loop1_all a b hx (b.toNat + 1) (ellInit a b) (L1_init a b hx)
+  have hl2 : L2 a b (ellLoop1 (ellConsts a b) (b.toNat + 1) (ellInit a b)).2 := ⟨i2.1.1, i2.2.1, i2.2.2.1, i2.2.2.2.2.1⟩
+  have h1 : 0 ≤ (ellLoop1 (ellConsts a b) (b.toNat + 1) (ellInit a b)).2.d2 := by
+    apply i3
+    have : (ellInit a b).y = 0 := by
+      rw [(consts_eq a b (by linarith [hx.ha]) (by linarith [hx.hb]) hx.haw hx.hbw).2]
+    have := hx.hb
+    omega
+  have h2 := (loop2_all a b hx (a.toNat + 2) _ hl2).2 (by have := hl2.2.2.2; have := hx.ha; omega)
+  simp only [Bool.or_eq_false_iff, decide_eq_false_iff_not]
+  omega
+
+
+private theorem mem_drawPoint (cx cy W H : Int) (p q : Pt) (hq : q ∈ drawPoint cx cy W H p) :
+    (q.1 = cx + p.1 ∧ q.1 < W ∨ q.1 = cx - p.1 ∧ 0 ≤ q.1 ∧ q.1 < W) ∧
+    (q.2 = cy + p.2 ∧ q.2 < H ∨ q.2 = cy - p.2 ∧ 0 ≤ q.2 ∧ q.2 < H) := by
+  unfold drawPoint at hq
+  simp only [List.mem_append, Bool.and_eq_true, decide_eq_true_eq] at hq
+  obtain ⟨q1, q2⟩ := q
+  rcases hq with ((hq | hq) | hq) | hq <;> split at hq <;> simp only [List.mem_cons, List.mem_nil_iff, or_false, Prod.mk.injEq] at hq <;>
+    (first | (exfalso; exact hq) | (simp only; omega))
+
+/-! ### the quadrant arc is 8-connected, starts on the x axis and ends on the y axis (so its four mirror images close up) -/
+
+private theorem step_conn (c : EC) (s : ES) :
+    conn8 (s.x, s.y) ((step1 c s).x, (step1 c s).y) = true ∧ conn8 (s.x, s.y) ((step2 c s).x, (step2 c s).y) = true := by
+  rw [step1_eq, step2_eq]
+  unfold conn8 iabs
+  constructor <;> split <;> simp only [Bool.and_eq_true, decide_eq_true_eq] <;> omega
+
+private theorem allPairs_cons (p : Pt) (l : List Pt) (hl : allPairs conn8 l = true)
+    (hh : ∀ q, l.head? = some q → conn8 p q = true) : allPairs conn8 (p :: l) = true := by
+  cases l with
+  | nil => rfl
+  | cons q t => simp only [allPairs, Bool.and_eq_true]; exact ⟨hh q rfl, hl⟩
+
+private theorem loop2_conn (c : EC) (f : Nat) (s : ES) :
+    allPairs conn8 (ellLoop2 c f s).1 = true ∧ ∀ q, (ellLoop2 c f s).1.head? = some q → q = (s.x, s.y) := by
+  induction f generalizing s with
+  | zero => exact ⟨rfl, by intro q hq; simp [ellLoop2] at hq⟩
+  | succ f ih =>
+    by_cases hd : s.x ≥ 0
+    · simp only [ellLoop2, hd, if_true]
+      obtain ⟨i1, i2⟩ := ih (step2 c s)
+      refine ⟨allPairs_cons _ _ i1 ?_, by intro q hq; simpa using hq.symm⟩
+      intro q hq; rw [i2 q hq]; exact (step_conn c s).2
+    · simp only [ellLoop2, hd, if_false]
+      exact ⟨rfl, by intro q hq; simp at hq⟩
+
+private theorem loop1_conn (c : EC) (f : Nat) (s : ES) (rest : List Pt) (hr : allPairs conn8 rest = true)
+    (hh : ∀ q, rest.head? = some q → q = ((ellLoop1 c f s).2.x, (ellLoop1 c f s).2.y)) :
+    allPairs conn8 ((ellLoop1 c f s).1 ++ rest) = true ∧
+    ∀ q, ((ellLoop1 c f s).1 ++ rest).head? = some q → q = (s.x, s.y) := by
+  induction f generalizing s with
+  | zero => simp only [ellLoop1, List.nil_append] at hh ⊢; exact ⟨hr, hh⟩
+  | succ f ih =>
+    by_cases hd : s.d2 < 0
+    · simp only [ellLoop1, hd, if_true, List.cons_append] at hh ⊢
+      obtain ⟨i1, i2⟩ := ih (step1 c s) hh
+      refine ⟨allPairs_cons _ _ i1 ?_, by intro q hq; simpa using hq.symm⟩
+      intro q hq; rw [i2 q hq]; exact (step_conn c s).1
+    · simp only [ellLoop1, hd, if_false, List.nil_append] at hh ⊢
+      exact ⟨hr, hh⟩
+
+/-- consecutive trajectory points are 8-connected (every a, b, every fuel: no hypothesis needed) -/
+theorem C20_ellipse_connected (a b : Int) (f1 f2 : Nat) : specConn (ellTrajectoryFuel a b f1 f2).1 = true := by
+  unfold specConn ellTrajectoryFuel
+  have h2 := loop2_conn (ellConsts a b) f2 (ellLoop1 (ellConsts a b) f1 (ellInit a b)).2
+  exact (loop1_conn (ellConsts a b) f1 (ellInit a b) _ h2.1 h2.2).1
+
+private theorem loop2_last (c : EC) (f : Nat) (s : ES) (hx : 0 ≤ s.x) (hf : s.x + 1 ≤ (f : Int)) :
+    ∃ q, (ellLoop2 c f s).1.getLast? = some q ∧ q.1 = 0 := by
+  induction f generalizing s with
+  | zero => omega
+  | succ f ih =>
+    have hd : s.x ≥ 0 := hx
+    have hx' : (step2 c s).x = s.x - 1 := by rw [step2_eq]; split <;> rfl
+    simp only [ellLoop2, hd, if_true]
+    by_cases h0 : s.x = 0
+    · have hstop : (ellLoop2 c f (step2 c s)).1 = [] := by
+        cases f with
+        | zero => rfl
+        | succ f' => simp only [ellLoop2]; rw [hx', h0]; simp
+      rw [hstop]; exact ⟨(s.x, s.y), rfl, h0⟩
+    · obtain ⟨q, hq, hq0⟩ := ih (step2 c s) (by rw [hx']; omega) (by rw [hx']; omega)
+      refine ⟨q, ?_, hq0⟩
+      cases hl : (ellLoop2 c f (step2 c s)).1 with
+      | nil => rw [hl] at hq; simp at hq
+      | cons r t => rw [hl] at hq; simpa [List.getLast?_cons_cons] using hq
+
+/-- the trajectory starts at (a, 0), on the x axis, and its last point lies on the y axis -/
+theorem C20_ellipse_ends (a b : Int) (hx : Axes a b) :
+    (ellTrajectory a b).1.head? = some (a, 0) ∧ ∃ q, (ellTrajectory a b).1.getLast? = some q ∧ q.1 = 0 := by
+  unfold ellTrajectory ellTrajectoryFuel
+  dsimp only
+  obtain ⟨_, i2, _⟩ := loop1_all a b hx (b.toNat + 1) (ellInit a b) (L1_init a b hx)
+  have hxa : (ellLoop1 (ellConsts a b) (b.toNat + 1) (ellInit a b)).2.x ≤ a := i2.2.2.2.2.1
+  have hx0 : 0 ≤ (ellLoop1 (ellConsts a b) (b.toNat + 1) (ellInit a b)).2.x := i2.2.2.2.1
+  obtain ⟨q, hq, hq0⟩ := loop2_last (ellConsts a b) (a.toNat + 2) _ hx0 (by have := hx.ha; omega)
+  have h2 := loop2_conn (ellConsts a b) (a.toNat + 2) (ellLoop1 (ellConsts a b) (b.toNat + 1) (ellInit a b)).2
+  have h1 := (loop1_conn (ellConsts a b) (b.toNat + 1) (ellInit a b) _ h2.1 h2.2).2
+  have hi : ((ellInit a b).x, (ellInit a b).y) = (a, 0) := by
+    rw [(consts_eq a b (by linarith [hx.ha]) (by linarith [hx.hb]) hx.haw hx.hbw).2]
+  constructor
+  · cases hl : ((ellLoop1 (ellConsts a b) (b.toNat + 1) (ellInit a b)).1 ++
+        (ellLoop2 (ellConsts a b) (a.toNat + 2) (ellLoop1 (ellConsts a b) (b.toNat + 1) (ellInit a b)).2).1) with
+    | nil =>
+      have : (ellLoop2 (ellConsts a b) (a.toNat + 2) (ellLoop1 (ellConsts a b) (b.toNat + 1) (ellInit a b)).2).1 = [] := by
+        have := List.append_eq_nil_iff.mp hl; exact this.2
+      rw [this] at hq; simp at hq
+    | cons r t => rw [hl] at h1; rw [List.head?_cons, h1 r rfl, hi]
+  · refine ⟨q, ?_, hq0⟩
+    rw [List.getLast?_append, hq]; rfl
+
+/-- the quadrant arc closes up with its mirror images (the Spec clause `closed` the judge evaluates) -/
+theorem C20_ellipse_closed (a b : Int) (hx : Axes a b) : specEllClosed (ellTrajectory a b).1 = true := by
+  obtain ⟨h1, q, h2, h3⟩ := C20_ellipse_ends a b hx
+  have hc : specConn (ellTrajectory a b).1 = true := C20_ellipse_connected a b _ _
+  unfold specEllClosed
+  rw [hc, h1, h2]
+  simp [h3]
+
+example : (ellTrajectory 3 2).1 = [(3, 0), (3, 1), (2, 1), (1, 2), (0, 2)] := by decide
+
+/-- draw_curve writes only inside the view, for every centre (including 0, which wraps in the unsigned
+    decrement), every view size and every trajectory of first-quadrant points -/
+theorem C20_ellipse_clipped (cx cy W H : Int) (traj : List Pt) (hq : ∀ p ∈ traj, 0 ≤ p.1 ∧ 0 ≤ p.2) :
+    (drawCurve cx cy W H traj).all (inView W H) = true := by
+  unfold drawCurve
+  rw [List.all_eq_true]
+  intro q hmem
+  rw [List.mem_flatMap] at hmem
+  obtain ⟨p, hp, hqp⟩ := hmem
+  have h := mem_drawPoint _ _ W H p q hqp
+  have hp0 := hq p hp
+  have hc1 : 0 ≤ (cx - 1) % 4294967296 := Int.emod_nonneg _ (by decide)
+  have hc2 : 0 ≤ (cy - 1) % 4294967296 := Int.emod_nonneg _ (by decide)
+  simp only [inView, Bool.and_eq_true, decide_eq_true_eq]
+  omega
+
+/-- apply_rasterizer(view, ellipse, pixel) never writes outside the view -/
+theorem C20_ellipse_apply_in_view (a b : Int) (hx : Axes a b) (cx cy W H : Int) :
+    (drawCurve cx cy W H (ellTrajectory a b).1).all (inView W H) = true := by
+  apply C20_ellipse_clipped
+  intro p hp
+  have h := C20_ellipse_bbox a b hx (b.toNat + 1) (a.toNat + 2)
+  unfold specEllBBox at h
+  rw [List.all_eq_true] at h
+  have := h p hp
+  simp only [inBox, Bool.and_eq_true, decide_eq_true_eq] at this
+  omega
+
+/-- when nothing is clipped the four reflections of every trajectory point are written: the painted set is
+    symmetric about the centre (cx−1, cy−1) in both axes, and within the ellipse's bounding box -/
+theorem C20_ellipse_sym (a b : Int) (hx : Axes a b) (cx cy W H : Int) (hcx : 1 ≤ cx) (hcx' : cx ≤ 4294967296) (hcy : 1 ≤ cy) (hcy' : cy ≤ 4294967296)
+    (hw : cx - 1 - a ≥ 0 ∧ cx - 1 + a < W) (hh : cy - 1 - b ≥ 0 ∧ cy - 1 + b < H) :
+    ∀ q ∈ drawCurve cx cy W H (ellTrajectory a b).1,
+      (2 * (cx - 1) - q.1, q.2) ∈ drawCurve cx cy W H (ellTrajectory a b).1 ∧
+      (q.1, 2 * (cy - 1) - q.2) ∈ drawCurve cx cy W H (ellTrajectory a b).1 ∧
+      cx - 1 - a ≤ q.1 ∧ q.1 ≤ cx - 1 + a ∧ cy - 1 - b ≤ q.2 ∧ q.2 ≤ cy - 1 + b := by
+  intro q hmem
+  unfold drawCurve at hmem ⊢
+  have e1 : (cx - 1) % 4294967296 = cx - 1 := Int.emod_eq_of_lt (by omega) (by omega)
+  have e2 : (cy - 1) % 4294967296 = cy - 1 := Int.emod_eq_of_lt (by omega) (by omega)
+  rw [e1, e2] at hmem ⊢
+  simp only [List.mem_flatMap] at hmem ⊢
+  obtain ⟨p, hp, hqp⟩ := hmem
+  have hb := C20_ellipse_bbox a b hx (b.toNat + 1) (a.toNat + 2)
+  unfold specEllBBox at hb
+  rw [List.all_eq_true] at hb
+  have hpb := hb p hp
+  simp only [inBox, Bool.and_eq_true, decide_eq_true_eq] at hpb
+  have hv0 : decide (cx - 1 + p.1 < W) = true := by rw [decide_eq_true_eq]; omega
+  have hv1 : (decide (cx - 1 - p.1 ≥ 0) && decide (cx - 1 - p.1 < W)) = true := by
+    rw [Bool.and_eq_true, decide_eq_true_eq, decide_eq_true_eq]; omega
+  have hv2 : decide (cy - 1 + p.2 < H) = true := by rw [decide_eq_true_eq]; omega
+  have hv3 : (decide (cy - 1 - p.2 ≥ 0) && decide (cy - 1 - p.2 < H)) = true := by
+    rw [Bool.and_eq_true, decide_eq_true_eq, decide_eq_true_eq]; omega
+  have hall : drawPoint (cx - 1) (cy - 1) W H p =
+      [(cx - 1 + p.1, cy - 1 + p.2), (cx - 1 - p.1, cy - 1 + p.2), (cx - 1 - p.1, cy - 1 - p.2), (cx - 1 + p.1, cy - 1 - p.2)] := by
+    unfold drawPoint
+    simp only [hv0, hv1, hv2, hv3, Bool.and_self, if_true, List.cons_append, List.nil_append]
+  rw [hall] at hqp
+  obtain ⟨q1, q2⟩ := q
+  simp only [List.mem_cons, List.mem_nil_iff, or_false, Prod.mk.injEq] at hqp
+  refine ⟨⟨p, hp, ?_⟩, ⟨p, hp, ?_⟩, ?_⟩
+  · rw [hall]; simp only [List.mem_cons, List.mem_nil_iff, or_false, Prod.mk.injEq]; omega
+  · rw [hall]; simp only [List.mem_cons, List.mem_nil_iff, or_false, Prod.mk.injEq]; omega
+  · simp only; omega
+
+example : (drawCurve 5 5 9 9 (ellTrajectory 3 2).1).length = 20 := by decide
 
 
 end GilVerif.Props.C20
